@@ -337,6 +337,29 @@ def check_lookup_contracts(ctx, eng):
         exp = set(tolerated)
         if 'NoSuchStreamError' in exp:
             exp.add('StreamClosedError')      # subclass
+        # what the handler tolerates it tolerates from the stream itself as
+        # well as from the lookup: a closed stream that is still in the
+        # table answers with the same StreamClosedError, and that must not
+        # leave the handler either
+        # (decided for the DATA handler, where the stream machine really
+        # answers a closed stream with StreamClosedError; the escape sets of
+        # the other handlers are not specialised by input and would
+        # over-approximate)
+        if name != '_receive_data_frame':
+            pass
+        elif 'StreamClosedError' in tolerated and \
+                'StreamClosedError' in eng.R.of(fi.qual):
+            w = eng.R.of(fi.qual)['StreamClosedError']
+            ctx.ob('FSM.layer3', fi.qual, 'closed-stream answer is complete',
+                   False, 'StreamClosedError can still leave the handler '
+                   '(%s): a stream closed but not yet forgotten is treated '
+                   'differently from a forgotten one' % '; '.join(sorted(
+                       '%s %s' % (o[0].split('.')[-1], o[2])
+                       for o in w.origins))[:300], node=fi.node)
+        elif 'StreamClosedError' in tolerated:
+            ctx.ob('FSM.layer3', fi.qual, 'closed-stream answer is complete',
+                   True, 'no StreamClosedError leaves the handler',
+                   node=fi.node)
         ctx.ob('FSM.layer3', fi.qual, 'stream lookup contract',
                uses > 0 and argok and caught == exp,
                'looks the stream up with %s(frame.stream_id) and tolerates '
